@@ -151,8 +151,16 @@ class C14(Prop):
                 "tiers": gen_ranking(rng, bal, True)}
 
     def generate(self, rng, tier, shard):
+        from . import poker
         while True:
-            yield self.gen_case(rng, small=rng.random() < 0.25)
+            if rng.random() < 0.12:
+                # complete hands played with rake: fold-outs before/after the flop, showdowns, all-in run-outs
+                cfg = poker.gen_cfg(rng)
+                cfg["f"] = core.ratj(rng.choice([0.05, 0.1, 0.3, 0.5, 0.7, 1.0])); cfg["cap"] = rng.choice([1, 3, 10, 10**6])
+                tr = poker.play(rng, cfg, probes_per_state=0, policy=rng.choice(["allin", "caller", "folder", "checkcall", "potty"]))
+                yield {"trace": tr}
+            else:
+                yield self.gen_case(rng, small=rng.random() < 0.25)
 
     def exhaustive(self, tier, shard, nshards):
         if tier != "thorough":
@@ -171,12 +179,48 @@ class C14(Prop):
                         yield {"bal": list(bal), "f": core.ratj(f), "cap": cap, "rake_pot": True, "tiers": [[top[0]]]}
 
     def impl(self, case):
+        if "trace" in case:
+            return C02._c07(self).impl(case["trace"])
         return impl_settle(case)
 
     def request(self, case, io):
+        if "trace" in case:
+            return C02._c07(self).request(case["trace"], io)
         return request_settle(case, io)
 
+    def judge_trace(self, case, io, mo):
+        from .p_poker import walk, diff_obs
+        tr = case["trace"]
+        evs = walk(tr, io, mo)
+        why = []
+        acts = [e for e in evs if e.kind == "act" and e.ri == "ok"]
+        key = None
+        internal = [e for e in evs if e.ri == "internal"]
+        if internal:
+            why.append(f"a raked hand failed inside the engine: {internal[0].exc}")
+        if acts and acts[-1].oi["complete"]:
+            o = acts[-1].oi
+            rake = o["rake"] or []
+            saw_flop = len(o["board"]) >= 3 or (o["action"] is None and sum(1 for x in o["last"] if x != "FOLD") >= 2)
+            if rake and sum(rake) > 1e-9 and not saw_flop:
+                why.append(f"rake {rake} taken from a hand that saw no flop")
+            for p_, r in enumerate(rake):
+                if r < -1e-9 or r > o["pot"][p_] + 1e-9:
+                    why.append(f"seat {p_} pays rake {r} on a contribution of {o['pot'][p_]}"); break
+            if rake and sum(rake) > tr["cap"] + 1e-9:
+                why.append(f"total rake {sum(rake)} exceeds the cap {tr['cap']}")
+            m = acts[-1].om
+            if m is not None and acts[-1].synced and m.get("complete"):
+                d = diff_obs(o, m, ("rake",))
+                if d:
+                    why.append(f"rake of the hand is not the layer recurrence on its contributions {o['pot']}: {d[0]}")
+            if rake and sum(rake) > 0:
+                key = core.stable_hash([tr["stacks"], tr["blinds"], tr["ante"], tr["f"], tr["cap"], [e.op for e in acts]])
+        return Verdict(True, not why, " ;; ".join(why[:3]), key, ["engine-hand"])
+
     def judge(self, case, io, mo):
+        if "trace" in case:
+            return self.judge_trace(case, io, mo)
         why = []
         agree = True
         holds = True
@@ -212,6 +256,8 @@ class C14(Prop):
         return Verdict(agree, holds, " ;; ".join(why), key, tags)
 
     def shrink_candidates(self, case):
+        if "trace" in case:
+            return
         bal = case["bal"]
         n = len(bal)
         if n > 2:
@@ -257,8 +303,16 @@ class C02(Prop):
         return {"bal": bal, "f": core.ratj(f), "cap": cap, "rake_pot": raked, "tiers": gen_ranking(rng, bal, with_max)}
 
     def generate(self, rng, tier, shard):
+        from . import poker
         while True:
-            yield self.gen_case(rng, small=rng.random() < 0.3)
+            if rng.random() < 0.12:
+                # the same rule inside real hands: uneven stacks, all-ins, 1-3 run-outs, rake -- settled by the engine
+                cfg = poker.gen_cfg(rng)
+                cfg["stacks"] = [max(0, x) for x in cfg["stacks"]]
+                tr = poker.play(rng, cfg, probes_per_state=0, policy=rng.choice(["allin", "allin", "caller", "potty"]))
+                yield {"trace": tr}
+            else:
+                yield self.gen_case(rng, small=rng.random() < 0.3)
 
     def exhaustive(self, tier, shard, nshards):
         """all pots with <= 4 seats (3 at contributions <= 4, 4 at <= 2), every contender subset with a
@@ -283,12 +337,43 @@ class C02(Prop):
                                        "tiers": [list(t) for t in tiers]}
 
     def impl(self, case):
+        if "trace" in case:
+            return self._c07().impl(case["trace"])
         return impl_settle(case)
 
     def request(self, case, io):
+        if "trace" in case:
+            return self._c07().request(case["trace"], io)
         return request_settle(case, io)
 
+    def _c07(self):
+        if not hasattr(self, "_c07_inst"):
+            from .p_poker import C07
+            self._c07_inst = C07()
+        return self._c07_inst
+
+    def judge_trace(self, case, io, mo):
+        """a complete hand: the engine's payouts must be the layered settlement of the final contributions under the
+        ranking -- the Lean model computes exactly that (settle = spec is theorem C02.settle_eq_spec)"""
+        from .p_poker import walk, diff_obs
+        tr = case["trace"]
+        evs = walk(tr, io, mo)
+        why = []
+        acts = [e for e in evs if e.kind == "act" and e.ri == "ok"]
+        key = None
+        if acts and acts[-1].oi["complete"] and acts[-1].om is not None and acts[-1].synced and acts[-1].om.get("complete"):
+            o, m = acts[-1].oi, acts[-1].om
+            d = diff_obs(o, m, ("pay",))
+            if d:
+                why.append(f"hand with contributions {o['pot']} (stacks {tr['stacks']}, {tr['runouts']} run-out(s), rake {tr['cap']}): "
+                           f"payouts {o['pay']} are not the layer-by-layer settlement {[float(core.unrat(q)) for q in m['pay']] if m['pay'] else None}")
+            if len(set(x for x in o["pot"] if x > 0)) >= 2:
+                key = core.stable_hash([tr["stacks"], tr["blinds"], tr["ante"], [e.op for e in acts]])
+        return Verdict(True, not why, " ;; ".join(why), key, ["engine-hand"])
+
     def judge(self, case, io, mo):
+        if "trace" in case:
+            return self.judge_trace(case, io, mo)
         why = []
         agree = True; holds = True
         n = len(case["bal"])
@@ -321,4 +406,7 @@ class C02(Prop):
                 f"contender-levels={min(4, len(lv))}", "folded-money" if len(flat) < n else "all-contend"]
         return Verdict(agree, holds, " ;; ".join(why), key, tags)
 
-    shrink_candidates = C14.shrink_candidates
+    def shrink_candidates(self, case):
+        if "trace" in case:
+            return iter(())
+        return C14.shrink_candidates(self, case)
